@@ -9,12 +9,18 @@ import (
 	"os"
 	osexec "os/exec"
 	"path/filepath"
+	"reflect"
+	"sort"
 	"strings"
+	"sync"
 	"syscall"
 
+	abiparser "github.com/tonkeeper/tongo/abi/parser"
 	tlbparser "github.com/tonkeeper/tongo/tlb/parser"
+	"github.com/tonkeeper/tongo/utils"
 	"verifharness/h"
 	"verifharness/tlbmini"
+	"verifharness/tlbx"
 )
 
 // TL-B half of property C09: tlb/parser.GenerateGolangTypes is run on random TL-B schemas (twice: identical output),
@@ -43,7 +49,122 @@ func registerTlbOps(ops map[string]h.ExecFn) {
 			return forwardTo(path, op, a)
 		}
 	}
+	ops["go.regen.abi"] = func([]string) string { return goRegenAbi() }
+	ops["tlbs.absdesc"] = exAbsDesc
 	ops["tlbs.ok"] = func(a []string) string { return "ok 1 1" } // the schema generator stays inside the subset
+}
+
+// goRegenAbi: run the repository's abi/generator.go on the checked-in abi/schemas into a scratch directory and compare
+// every artefact it writes with the checked-in file (as go.regen.liteclient does for the TL bindings).
+func goRegenAbi() string {
+	repo := repoDir()
+	dir, err := scratchDir("regen-abi")
+	if err != nil {
+		return failf("regen-scratch", "%v", err)
+	}
+	defer os.RemoveAll(dir)
+	bin := filepath.Join(dir, "gen")
+	cmd := osexec.Command("go", "build", "-o", bin, "./abi/generator.go")
+	cmd.Dir = repo
+	if out, err := cmd.CombinedOutput(); err != nil {
+		return failf("regen-build", "%v: %.300s", err, out)
+	}
+	cp := osexec.Command("cp", "-r", filepath.Join(repo, "abi", "schemas"), filepath.Join(dir, "schemas"))
+	if out, err := cp.CombinedOutput(); err != nil {
+		return failf("regen-input", "%v: %s", err, out)
+	}
+	run := osexec.Command(bin)
+	run.Dir = dir
+	if out, err := run.CombinedOutput(); err != nil {
+		return failf("regen-run", "abi/generator.go on the checked-in abi/schemas: %v: %.200s", err, strings.ReplaceAll(string(out), "\n", " "))
+	}
+	for _, f := range []string{"types.go", "messages_generated.go", "get_methods.go", "interfaces.go", "jetton_msg_types.go",
+		"nfts_msg_types.go", "contracts_errors.go", "messages.md"} {
+		got, err1 := os.ReadFile(filepath.Join(dir, f))
+		want, err2 := os.ReadFile(filepath.Join(repo, "abi", f))
+		if err1 != nil || err2 != nil || string(got) != string(want) {
+			return failf("regen-differs", "abi/%s is not what abi/generator.go produces from abi/schemas", f)
+		}
+	}
+	return "ok"
+}
+
+// ---------------------------------------------------------------------------------- the checked-in abi structs
+
+var (
+	abiTypesOnce sync.Once
+	abiTypes     map[string]reflect.Type
+)
+
+// exAbsDesc: tlbs.absdesc <tlb text> <Type> <Go type name in package abi> <skipMagic> — the reflection descriptor of
+// the CHECKED-IN generated struct (the abi generator cannot be re-run, see go.regen.abi), to be compared with what the
+// declaration in abi/schemas denotes.
+func exAbsDesc(a []string) string {
+	abiTypesOnce.Do(func() {
+		abiTypes = map[string]reflect.Type{}
+		for _, t := range tlbx.Registry {
+			abiTypes[tlbx.TypeName(t)] = t
+		}
+	})
+	rt, ok := abiTypes["abi."+a[2]]
+	if !ok {
+		return "nobinding abi." + a[2]
+	}
+	u := tlbx.NewUniverse()
+	d := u.Describe(rt)
+	body, ok := u.Named[d.Name]
+	if !ok {
+		return "nobinding not a named struct"
+	}
+	return "ok " + tlbmini.NormDesc(body.TextIdx(nil)) + " " + tlbmini.GoFieldNames(body)
+}
+
+// genAbi: every TL-B declaration of abi/schemas/*.xml that lies in the modelled subset (all of its types are builtin
+// or declared in the same block) against the checked-in struct of package abi.
+func genAbi(g *h.G) {
+	files, _ := filepath.Glob(filepath.Join(repoDir(), "abi", "schemas", "*.xml"))
+	sort.Strings(files)
+	emit := func(text, goPrefix string, skipMagic bool) {
+		s, err := tlbmini.Parse(text)
+		if err != nil || !s.Closed() {
+			g.Count("abi_decls_outside_subset")
+			return
+		}
+		for _, tn := range s.TypeNames() {
+			goName := tn
+			if goPrefix != "" {
+				goName = goPrefix
+			}
+			sm := "0"
+			if skipMagic {
+				sm = "1"
+			}
+			g.Count("abi_decls_compared")
+			g.Emit("tlbs.absdesc", hex.EncodeToString([]byte(text)), tn, goName, sm)
+		}
+	}
+	for _, f := range files {
+		raw, err := os.ReadFile(f)
+		if err != nil {
+			continue
+		}
+		a, err := abiparser.ParseABI(raw)
+		if err != nil {
+			g.Count("abi_files_unparsed")
+			continue
+		}
+		for _, t := range a.Types {
+			emit(t, "", false)
+		}
+		for _, grp := range []struct {
+			ms     []abiparser.Message
+			suffix string
+		}{{a.Internals, "MsgBody"}, {a.ExtIn, "ExtInMsgBody"}, {a.ExtOut, "ExtOutMsgBody"}, {a.JettonPayloads, "JettonPayload"}, {a.NFTPayloads, "NFTPayload"}} {
+			for _, m := range grp.ms {
+				emit(m.Input, utils.ToCamelCase(m.Name)+grp.suffix, true)
+			}
+		}
+	}
 }
 
 func generateTlb(schema string) (string, error) {
@@ -234,6 +355,8 @@ func ensureTlbProgram(schema string) (string, error) {
 }
 
 func genTlb(g *h.G) {
+	g.Emit("go.regen.abi")
+	genAbi(g)
 	n := g.Scale(6, 100)
 	var schemas []*tlbmini.Schema
 	var texts []string
